@@ -8,11 +8,17 @@ From TL Require Import Lib.Base Lib.GenTypes Model.RustSafetyTypes Model.RustSaf
 Lemma gmacro_mono q g k i : g_macro g = true -> g_macro (gpush q g k i) = true.
 Proof. cbn [gpush g_macro]. intros ->. reflexivity. Qed.
 
+(* the field _should_analyze reads is the documented `enabled` key with the documented default, for each linter *)
+Lemma enabled_keys o :
+  enabled_of unwrap_cfg o = opt o "enabled" true /\ enabled_of clone_cfg o = opt o "enabled" true /\ enabled_of blocking_cfg o = opt o "enabled" true.
+Proof. repeat split. Qed.
+
 (* ------------------------------------------------------------------ guarded exactness (any quirk vector) *)
 Theorem unwrap_guarded q ls c file : file_guard LUnwrap q file = true ->
   unwrap_report q ls c file = spec_unwrap_report ls c file.
 Proof.
-  intros G. unfold unwrap_report, spec_unwrap_report.
+  intros G. unfold unwrap_report, spec_unwrap_report. rewrite (proj1 (enabled_keys _)).
+  destruct (opt (c_unwrap c) "enabled" true); [|reflexivity]. unfold unwrap_scan, spec_unwrap_scan.
   apply (walk_file_sim (push_m q) (emit_unwrap q ls (c_unwrap c)) spec_push (spec_unwrap ls (c_unwrap c))
                        (gpush q) (gok LUnwrap q) (R q) g_macro) with (g := g0).
   - intros g c1 c2 k cs HR Hk. exact (emit_unwrap_eq q g ls _ c1 c2 k cs HR Hk).
@@ -28,7 +34,8 @@ Theorem clone_guarded q ls c file :
   file_guard LClone q file = true ->
   clone_report q ls c file = spec_clone_report ls c file.
 Proof.
-  intros HQ G. unfold clone_report, spec_clone_report.
+  intros HQ G. unfold clone_report, spec_clone_report. rewrite (proj1 (proj2 (enabled_keys _))).
+  destruct (opt (c_clone c) "enabled" true); [|reflexivity]. unfold clone_scan, spec_clone_scan.
   apply (walk_file_sim (push_m q) (emit_clone q ls (c_clone c)) spec_push (spec_clone ls (c_clone c))
                        (gpush q) (gok LClone q) (R q) g_macro) with (g := g0).
   - intros g c1 c2 k cs HR Hk. exact (emit_clone_eq q g ls _ c1 c2 k cs HQ HR Hk).
@@ -42,7 +49,8 @@ Qed.
 Theorem blocking_guarded q ls c file : file_guard LBlocking q file = true ->
   blocking_report q ls c file = spec_blocking_report ls c file.
 Proof.
-  intros G. unfold blocking_report, spec_blocking_report.
+  intros G. unfold blocking_report, spec_blocking_report. rewrite (proj2 (proj2 (enabled_keys _))).
+  destruct (opt (c_blocking c) "enabled" true); [|reflexivity]. unfold blocking_scan, spec_blocking_scan.
   apply (walk_file_sim (push_m q) (emit_blocking q ls (c_blocking c)) spec_push (spec_blocking ls (c_blocking c))
                        (gpush q) (gok LBlocking q) (R q) g_macro) with (g := g0).
   - intros g c1 c2 k cs HR Hk. exact (emit_blocking_eq q g ls _ c1 c2 k cs HR Hk).
@@ -213,7 +221,8 @@ Qed.
 Theorem blocking_msg_erased q ls c file :
   map erase_msg (blocking_report q ls c file) = map erase_msg (blocking_report (msg_off q) ls c file).
 Proof.
-  unfold blocking_report, walk_file. induction file as [|n ns IH]; [reflexivity|].
+  unfold blocking_report. destruct (enabled_of blocking_cfg (c_blocking c)); [|reflexivity].
+  unfold blocking_scan, walk_file. induction file as [|n ns IH]; [reflexivity|].
   cbn [flat_map]. rewrite !map_app, IH. f_equal.
   apply walk_map_ext.
   - intros anc k i rest. reflexivity.
@@ -273,7 +282,11 @@ Theorem switch_allow_expect ls c file :
   spec_unwrap_report ls (with_unwrap c (set_opt "allow_expect" true (c_unwrap c))) file =
   filter (drop_rule "unwrap-abuse.expect-call") (spec_unwrap_report ls (with_unwrap c (set_opt "allow_expect" false (c_unwrap c))) file).
 Proof.
-  unfold spec_unwrap_report. cbn [c_unwrap with_unwrap]. apply walk_file_filter. intros x k cs.
+  unfold spec_unwrap_report. cbn [c_unwrap with_unwrap].
+  change (opt (set_opt "allow_expect" true (c_unwrap c)) "enabled" true) with (opt (c_unwrap c) "enabled" true).
+  change (opt (set_opt "allow_expect" false (c_unwrap c)) "enabled" true) with (opt (c_unwrap c) "enabled" true).
+  destruct (opt (c_unwrap c) "enabled" true); [|reflexivity]. unfold spec_unwrap_scan. cbn [c_unwrap with_unwrap].
+  apply walk_file_filter. intros x k cs.
   destruct k; try reflexivity. unfold spec_unwrap, set_opt. cbn [opt String.eqb Ascii.eqb Bool.eqb andb negb].
   destruct (in_test x && opt (c_unwrap c) "allow_in_tests" true); [reflexivity|].
   destruct (String.eqb name "unwrap"); [reflexivity|].
@@ -285,7 +298,11 @@ Theorem switch_blocking ls c file cl : cl = "fs-in-async" \/ cl = "sleep-in-asyn
   spec_blocking_report ls (with_blocking c (set_opt (blocking_switch cl) false (c_blocking c))) file =
   filter (drop_rule (blocking_rule cl)) (spec_blocking_report ls (with_blocking c (set_opt (blocking_switch cl) true (c_blocking c))) file).
 Proof.
-  intros Hcl. unfold spec_blocking_report. cbn [c_blocking with_blocking]. apply walk_file_filter. intros x k cs.
+  intros Hcl. unfold spec_blocking_report. cbn [c_blocking with_blocking].
+  assert (EN : forall v, opt (set_opt (blocking_switch cl) v (c_blocking c)) "enabled" true = opt (c_blocking c) "enabled" true).
+  { intros v. destruct Hcl as [->|[->| ->]]; reflexivity. }
+  rewrite !EN. clear EN. destruct (opt (c_blocking c) "enabled" true); [|reflexivity]. unfold spec_blocking_scan. cbn [c_blocking with_blocking].
+  apply walk_file_filter. intros x k cs.
   destruct k; try reflexivity. unfold spec_blocking.
   assert (E : forall v, opt (set_opt (blocking_switch cl) v (c_blocking c)) "allow_in_tests" true = opt (c_blocking c) "allow_in_tests" true).
   { intros v. destruct Hcl as [->|[->| ->]]; reflexivity. }
@@ -297,6 +314,18 @@ Proof.
     clear E; repeat match goal with |- context [opt (c_blocking c) ?key true] => destruct (opt (c_blocking c) key true) end; reflexivity.
 Qed.
 
+(* `enabled: false` silences a linter, model (whatever the quirks) and specification alike *)
+Theorem switch_enabled q ls c file :
+  (opt (c_unwrap c) "enabled" true = false -> unwrap_report q ls c file = [] /\ spec_unwrap_report ls c file = []) /\
+  (opt (c_clone c) "enabled" true = false -> clone_report q ls c file = [] /\ spec_clone_report ls c file = []) /\
+  (opt (c_blocking c) "enabled" true = false -> blocking_report q ls c file = [] /\ spec_blocking_report ls c file = []).
+Proof.
+  unfold unwrap_report, clone_report, blocking_report, spec_unwrap_report, spec_clone_report, spec_blocking_report.
+  destruct (enabled_keys (c_unwrap c)) as (-> & _ & _). destruct (enabled_keys (c_clone c)) as (_ & -> & _).
+  destruct (enabled_keys (c_blocking c)) as (_ & _ & ->).
+  repeat split; match goal with H : _ = false |- _ => now rewrite H end.
+Qed.
+
 (* a clone pattern whose detect_* option is off is never reported *)
 Definition clone_switch_of_rule (rule : string) : string :=
   if String.eqb rule "clone-abuse.clone-chain" then "detect_clone_chain"
@@ -305,7 +334,8 @@ Definition clone_switch_of_rule (rule : string) : string :=
 Theorem switch_clone_off ls c file :
   Forall (fun r => opt (c_clone c) (clone_switch_of_rule (rule_of_rep r)) true = true) (spec_clone_report ls c file).
 Proof.
-  unfold spec_clone_report. apply walk_file_forall. intros x k cs.
+  unfold spec_clone_report. destruct (opt (c_clone c) "enabled" true); [|constructor]. unfold spec_clone_scan.
+  apply walk_file_forall. intros x k cs.
   destruct k; try constructor. unfold spec_clone.
   destruct (String.eqb name "clone"); [|constructor].
   destruct (in_test x && opt (c_clone c) "allow_in_tests" true); [constructor|].
